@@ -231,6 +231,12 @@ where
     U: DataType,
     V: DataType,
 {
+    #[cfg(delaunay_verif)]
+    if let Some(cell_key) = tds.cell_keys().next()
+        && crate::verif::fail::hit("bulk.final_check.fail")
+    {
+        return Err(DelaunayValidationError::DelaunayViolation { cell_key });
+    }
     // Use robust predicates configuration for reliability
     let config = crate::geometry::robust_predicates::config_presets::general_triangulation::<T>();
 
